@@ -96,6 +96,7 @@ NEW_SRC = {
     "Nm": "### A new markdown section\n\nwith a sentence of explanation.\n",
     "N3": "class Widget(object):\n    colour = 'green'\n",
     "N4": "%%bash\nls -la /srv/data | wc -l\n",
+    "N5": "assert result is not None, 'no result'\nreport(result)\n",
 }
 
 STREAM = ["1\n2\n3\n", "1\n2\n4\n", "1\n2\n5\n", "1\n2\n3\n4\n", "entirely other output text, long enough\n"]
@@ -260,6 +261,7 @@ NEW_TEMPLATES = {
     "Nm": dict(type="markdown", text=NEW_SRC["Nm"], md=0),
     "N3": dict(type="code", text=NEW_SRC["N3"], outputs=[], md=0),
     "N4": dict(type="raw", text=NEW_SRC["N4"], md=0),
+    "N5": dict(type="code", text=NEW_SRC["N5"], outputs=[], md=0),
     # similar markdown cells whose attachments differ (same name, other content / other name)
     "NmA": dict(type="markdown", text=NEW_SRC["Nm"], md=0, att=True),
     "NmB": dict(type="markdown", text=NEW_SRC["Nm"] + "More.\n", md=1, att="other"),
